@@ -7,6 +7,8 @@ import SluProofs.Props.C14
 import Slu.Model.IluDrop
 import SluProofs.Lemmas.IluDrop
 import SluProofs.Lemmas.QSelect
+import Slu.Model.IluDropU
+import SluProofs.Lemmas.IluDropU
 import Mathlib.Tactic.Ring
 import Mathlib.Tactic.Linarith
 import Mathlib.Algebra.Order.Field.Basic
@@ -1094,3 +1096,285 @@ example : (qselect 7 (#[3, 1, 4, 1, 5, 9, 2] : Array Int) 2) = some (4, #[9, 5, 
 example := qselect_terminates (R := Int) (fun a b h => by omega) #[3, 1, 4, 1, 5, 9, 2] 7 (-3) (by decide) (by decide)
 
 end Slu.QSelect
+
+
+/-! ## The dropping of U entries: `ilu_[sdcz]copy_to_ucol` (Slu/Model/IluDropU.lean) -/
+namespace Slu.IluDropU
+open Slu Slu.Ilu Slu.IluDrop Slu.QSelect
+
+section generic
+variable {K R T : Type} [Inhabited K] [Inhabited R] [LT R] [DecidableLT R] (ops : UOps K R T) (inp : UIn K R T)
+
+/-- **C15 (copy_to_ucol: nothing is invented, nothing is lost).** For every scalar instance and every call whose
+`ucol/usub` can hold the listed rows ("capacity suffices": the memory growth of l.110-121 is not modelled): the
+`(usub, ucol)` pairs stored for column `jcol`, the pairs removed by the second sweep and the pairs dropped by the first
+loop are TOGETHER a permutation of the column's `(perm_r[row], dense[row])` pairs — the stored entries are a sub-multiset
+of the column with values unchanged, and every entry of the column is accounted for exactly once. -/
+theorem dropU_kept_subset (hU : (inp.xusub[inp.jcol]!).toNat + (rowsOf inp).length ≤ inp.ucol.size)
+    (hS : (inp.xusub[inp.jcol]!).toNat + (rowsOf inp).length ≤ inp.usub.size) :
+    (stored inp (copyToUcol ops inp) ++ (copyToUcol ops inp).s2.removed ++
+      (copyToUcol ops inp).s1.dropped.map (fun e => (inp.permR[e.1]!, e.2))).Perm (colPairs ops inp) := by
+  rw [stored_eq ops inp hU hS]
+  obtain ⟨ks, hP, hk, -, -, hS2, -⟩ := dropCore_inv ops inp.milu inp.permR inp.rule inp.dropTol inp.quota inp.n
+    inp.dense inp.work (rowsOf inp)
+  have h0 : (ks.reverse.map (fun e : Nat × K => (inp.permR[e.1]!, e.2))).Perm (ks.map (fun e : Nat × K => (inp.permR[e.1]!, e.2))) :=
+    (List.reverse_perm ks).map _
+  have h1 := hS2.trans (hk ▸ h0)
+  have h2 := hP.map (fun e : Nat × K => (inp.permR[e.1]!, e.2))
+  rw [List.map_append] at h2
+  exact (h1.append_right _).trans h2
+
+/-- **C15 (copy_to_ucol: counts).** `*nnzUj` grows by the number of entries stored; stored + removed by the second
+sweep + dropped by the first loop = number of listed rows; `xusub[jcol+1] = xusub[jcol] + stored`. -/
+theorem dropU_count :
+    (copyToUcol ops inp).nnzUj = inp.nnzUj + (stored inp (copyToUcol ops inp)).length ∧
+    (stored inp (copyToUcol ops inp)).length + (copyToUcol ops inp).s2.removed.length + (copyToUcol ops inp).s1.dropped.length
+      = (rowsOf inp).length ∧
+    (inp.jcol + 1 < inp.xusub.size → 0 ≤ inp.xusub[inp.jcol]! →
+      (copyToUcol ops inp).xusub[inp.jcol + 1]! = inp.xusub[inp.jcol]! + (stored inp (copyToUcol ops inp)).length) := by
+  obtain ⟨ks, hP, hk, -, -, -, -, -, -, hsz, hcnt, -⟩ := dropCore_inv ops inp.milu inp.permR inp.rule inp.dropTol inp.quota inp.n
+    inp.dense inp.work (rowsOf inp)
+  have hl : (stored inp (copyToUcol ops inp)).length = (copyToUcol ops inp).cnt := by simp [stored]
+  have hks : (dropCore ops inp.rule inp.milu inp.dropTol inp.quota inp.n inp.permR inp.dense inp.work (rowsOf inp)).1.kept.size = ks.length := by
+    rw [← Array.length_toList, hk]; simp
+  have hv := hP.length_eq
+  rw [visits_length, List.length_append] at hv
+  refine ⟨by rw [hl]; rfl, ?_, fun h1 h2 => ?_⟩
+  · rw [hl]
+    show (dropCore ops inp.rule inp.milu inp.dropTol inp.quota inp.n inp.permR inp.dense inp.work (rowsOf inp)).2.1.cnt +
+      (dropCore ops inp.rule inp.milu inp.dropTol inp.quota inp.n inp.permR inp.dense inp.work (rowsOf inp)).2.1.removed.length +
+      (dropCore ops inp.rule inp.milu inp.dropTol inp.quota inp.n inp.permR inp.dense inp.work (rowsOf inp)).1.dropped.length = _
+    omega
+  · rw [hl]
+    show (inp.xusub.setIfInBounds (inp.jcol + 1) _)[inp.jcol + 1]! = _
+    rw [get!_set, if_pos ⟨rfl, h1⟩]
+    show (((inp.xusub[inp.jcol]!).toNat + (copyToUcol ops inp).cnt : Nat) : Int) = _
+    rw [Int.natCast_add, Int.toNat_of_nonneg h2]
+
+/-- **C15 (copy_to_ucol: the thresholds).** With the effective arguments of l.91-93 (`NODROP`: `drop_tol = -1`,
+`quota = Glu->n`): every entry dropped by the first loop FAILED `quota > 0 && |u| >= drop_tol`; every entry removed by the
+second sweep has `|u| <= tol` for the threshold `tol` of the second rule (which then ran); every entry stored on exit PASSED
+the first test and, if the second rule ran, has `|u| > tol` (fails `<=`).  Unlike `ilu_?drop_row` there is no index slip:
+the entry moved into a hole is re-examined with its own modulus. -/
+theorem dropU_threshold (hU : (inp.xusub[inp.jcol]!).toNat + (rowsOf inp).length ≤ inp.ucol.size)
+    (hS : (inp.xusub[inp.jcol]!).toNat + (rowsOf inp).length ≤ inp.usub.size) :
+    (∀ e ∈ (copyToUcol ops inp).s1.dropped,
+      keepC ops (effTol ops inp.rule inp.dropTol) (effQuota inp.rule inp.quota inp.n) e.2 = false) ∧
+    (∀ e ∈ (copyToUcol ops inp).s2.removed, ∃ tol, (copyToUcol ops inp).tol = some tol ∧ ops.base.leTol (ops.abs1 e.2) tol = true) ∧
+    (∀ e ∈ stored inp (copyToUcol ops inp),
+      keepC ops (effTol ops inp.rule inp.dropTol) (effQuota inp.rule inp.quota inp.n) e.2 = true ∧
+      ∀ tol, (copyToUcol ops inp).tol = some tol → ops.base.leTol (ops.abs1 e.2) tol = false) := by
+  obtain ⟨ks, hP, hk, hks, hds, hS2, hrm, hkept, -, hsz, hcnt, -⟩ := dropCore_inv ops inp.milu inp.permR inp.rule inp.dropTol
+    inp.quota inp.n inp.dense inp.work (rowsOf inp)
+  refine ⟨hds, hrm, fun e he => ?_⟩
+  rw [stored_eq ops inp hU hS] at he
+  constructor
+  · have hm : e ∈ (dropCore ops inp.rule inp.milu inp.dropTol inp.quota inp.n inp.permR inp.dense inp.work (rowsOf inp)).1.kept.toList :=
+      hS2.subset (List.mem_append_left _ he)
+    rw [hk] at hm
+    obtain ⟨x, hx, rfl⟩ := List.mem_map.mp hm
+    exact hks x (List.mem_reverse.mp hx)
+  · intro tol ht
+    rw [← range_map_get_eq_take _ _ (by
+      show (dropCore ops inp.rule inp.milu inp.dropTol inp.quota inp.n inp.permR inp.dense inp.work (rowsOf inp)).2.1.cnt ≤
+        (dropCore ops inp.rule inp.milu inp.dropTol inp.quota inp.n inp.permR inp.dense inp.work (rowsOf inp)).2.1.a.size
+      omega)] at he
+    obtain ⟨i, hi, rfl⟩ := List.mem_map.mp he
+    exact hkept tol ht i (List.mem_range.mp hi)
+
+/-- **C15 (copy_to_ucol: the SPA is cleaned).** On exit `dense` is zero on every listed row and unchanged elsewhere. -/
+theorem dropU_dense_zeroed (r : Nat) :
+    (copyToUcol ops inp).dense[r]! = if r ∈ rowsOf inp ∧ r < inp.dense.size then ops.zeroK else inp.dense[r]! := by
+  obtain ⟨ks, -, -, -, -, -, -, -, -, -, -, hd⟩ := dropCore_inv ops inp.milu inp.permR inp.rule inp.dropTol
+    inp.quota inp.n inp.dense inp.work (rowsOf inp)
+  show (dropCore ops inp.rule inp.milu inp.dropTol inp.quota inp.n inp.permR inp.dense inp.work (rowsOf inp)).1.dense[r]! = _
+  rw [hd]
+  exact (zeroed_get ops.zeroK (rowsOf inp) inp.dense r).2
+
+end generic
+
+/-- **C15 (copy_to_ucol: `*sum` in exact arithmetic, real files).** Over `Rat`, with `vals` the values dropped by the
+first loop and removed by the second sweep: `*sum` on exit is `0` under SILU, the signed sum under SMILU_1, its modulus
+under SMILU_2 and the sum of the moduli under SMILU_3 — `rawSum` of `Slu.Model.IluFactor`.  (In the COMPLEX files the
+second sweep adds a stale modulus under SMILU_3, ilu_zcopy_to_ucol.c:204; there the statement is false of the code and is
+not claimed.) -/
+theorem dropU_milu_sum_rat (nrm2 : Array Rat → Rat) (d0 : Rat) (inp : UIn Rat Rat Rat) :
+    (copyToUcol (uopsRat nrm2 d0) inp).sum =
+      match inp.milu with
+      | .silu => 0
+      | .smilu1 => ((copyToUcol (uopsRat nrm2 d0) inp).s1.dropped.map (·.2) ++ (copyToUcol (uopsRat nrm2 d0) inp).s2.removed.map (·.2)).sum
+      | .smilu2 => |((copyToUcol (uopsRat nrm2 d0) inp).s1.dropped.map (·.2) ++ (copyToUcol (uopsRat nrm2 d0) inp).s2.removed.map (·.2)).sum|
+      | .smilu3 => (((copyToUcol (uopsRat nrm2 d0) inp).s1.dropped.map (·.2) ++ (copyToUcol (uopsRat nrm2 d0) inp).s2.removed.map (·.2)).map
+                      (fun x => |x|)).sum := by
+  obtain ⟨ks, -, -, -, -, -, -, -, hsum, -, -, -⟩ := dropCore_inv (uopsRat nrm2 d0) inp.milu inp.permR inp.rule inp.dropTol
+    inp.quota inp.n inp.dense inp.work (rowsOf inp)
+  have hs : (copyToUcol (uopsRat nrm2 d0) inp).sum = finSum (uopsRat nrm2 d0) inp.milu
+      (dropCore (uopsRat nrm2 d0) inp.rule inp.milu inp.dropTol inp.quota inp.n inp.permR inp.dense inp.work (rowsOf inp)).2.1.sum := rfl
+  have hd : (copyToUcol (uopsRat nrm2 d0) inp).s1.dropped =
+      (dropCore (uopsRat nrm2 d0) inp.rule inp.milu inp.dropTol inp.quota inp.n inp.permR inp.dense inp.work (rowsOf inp)).1.dropped := rfl
+  have hr : (copyToUcol (uopsRat nrm2 d0) inp).s2.removed =
+      (dropCore (uopsRat nrm2 d0) inp.rule inp.milu inp.dropTol inp.quota inp.n inp.permR inp.dense inp.work (rowsOf inp)).2.1.removed := rfl
+  rw [hs, hd, hr, hsum]
+  simp only [acc1_rat, acc2_rat]
+  rw [foldl_add_sum (fun e : Int × Rat => miluTerm inp.milu e.2), foldl_add_sum (fun e : Nat × Rat => miluTerm inp.milu e.2)]
+  rw [List.map_reverse, List.map_reverse, List.sum_reverse, List.sum_reverse]
+  generalize (dropCore (uopsRat nrm2 d0) inp.rule inp.milu inp.dropTol inp.quota inp.n inp.permR inp.dense inp.work (rowsOf inp)).1.dropped = ds
+  generalize (dropCore (uopsRat nrm2 d0) inp.rule inp.milu inp.dropTol inp.quota inp.n inp.permR inp.dense inp.work (rowsOf inp)).2.1.removed = rm
+  have hz : (uopsRat nrm2 d0).zeroK = 0 := rfl
+  rw [hz]
+  cases inp.milu
+  · simp [finSum, miluTerm]
+  · simp [finSum, miluTerm]
+  · simp [finSum, miluTerm, uopsRat]
+  · simp [finSum, miluTerm, uopsRat, Function.comp_def]
+
+/-! ### a concrete call: entries dropped by both rules -/
+
+/-- supernodes {0,1,2}, {3}; column 4; segments with representatives 2 (rows 2,0,1 from column 0) and 3 (row 3); visited in
+the order 3, 2, 0, 1; values 5, 1, 1/4, 3; `drop_tol = 1/2`, `quota = 2`, SMILU_1, DROP_BASIC | DROP_COLUMN -/
+def exU : UIn Rat Rat Rat :=
+  { jcol := 4, nseg := 2, segrep := #[2, 3], repfnz := #[-1, -1, 0, 3, -1], permR := #[1, 2, 0, 3, 4],
+    dense := #[1/4, 3, 1, 5, 9], rule := { nodrop := false, basic := true, secondary := true, interp := false },
+    milu := .smilu1, dropTol := 1/2, quota := 2, nnzUj := 10, n := 5, xsup := #[0, 3, 4, 5], supno := #[0, 0, 0, 1, 2],
+    lsub := #[2, 0, 1, 3], xlsub := #[0, 0, 0, 3, 4], ucol := #[7, 0, 0, 0, 0], usub := #[7, 0, 0, 0, 0],
+    xusub := #[0, 0, 0, 1, 1, 0], work := #[0, 0, 0, 0, 0] }
+
+/-- the first loop drops 1/4 (< 1/2), `qselect` returns `tol = 1` (rank 2 of 5, 1, 3), the second sweep removes the entry 1
+and moves the last entry into its place; two entries are stored, `*sum = 1/4 + 1` -/
+example : rowsOf exU = [3, 2, 0, 1] ∧
+    stored exU (copyToUcol (uopsRat (fun _ => 0) 1000) exU) = [(3, 5), (2, 3)] ∧
+    (copyToUcol (uopsRat (fun _ => 0) 1000) exU).tol = some 1 ∧
+    (copyToUcol (uopsRat (fun _ => 0) 1000) exU).s1.dropped = [(0, 1/4)] ∧
+    (copyToUcol (uopsRat (fun _ => 0) 1000) exU).s2.removed = [(0, 1)] ∧
+    (copyToUcol (uopsRat (fun _ => 0) 1000) exU).sum = 5/4 ∧
+    (copyToUcol (uopsRat (fun _ => 0) 1000) exU).nnzUj = 12 ∧
+    (copyToUcol (uopsRat (fun _ => 0) 1000) exU).xusub = #[0, 0, 0, 1, 1, 3] ∧
+    (copyToUcol (uopsRat (fun _ => 0) 1000) exU).dense = #[0, 0, 0, 0, 9] := by
+  decide +kernel
+
+example := dropU_kept_subset (uopsRat (fun _ => 0) 1000) exU (by decide +kernel) (by decide +kernel)
+example := dropU_threshold (uopsRat (fun _ => 0) 1000) exU (by decide +kernel) (by decide +kernel)
+example := (dropU_count (uopsRat (fun _ => 0) 1000) exU).2.2 (by decide +kernel) (by decide +kernel)
+example := dropU_dense_zeroed (uopsRat (fun _ => 0) 1000) exU 2
+example := dropU_milu_sum_rat (fun _ => 0) 1000 exU
+
+end Slu.IluDropU
+
+
+/-! ## Both modelled rules as the drop oracle of `iluFactor` -/
+namespace Slu.Ilu
+open Slu.IluDrop Slu.IluDropU Slu.LU
+
+/-- what `[sd]gsitrf` decides for the U-dropping of column `j` and the specification-level model does not contain: the
+order in which the U-segments list the multipliers (positions `t` of `us`, i.e. pivot indices), the rule bits, the
+tolerance (after DROP_DYNAMIC updates), the quota (a floating-point formula of the caller) and `Glu->n` -/
+structure UCall where
+  order : List Nat
+  rule : Rule
+  dropTol : Rat
+  quota : Int
+  n : Nat
+
+/-- the model of `ilu_?copy_to_ucol` (exact arithmetic) run on the multipliers `us` of a column: `dense` = `us` indexed by
+position, `perm_r` = identity on positions -/
+def ucore (d0 : Rat) (milu : Milu) (c : UCall) (us : List Rat) :=
+  dropCore (uopsRat (fun _ => 0) d0) c.rule milu c.dropTol c.quota c.n ((Array.range us.length).map Int.ofNat) us.toArray
+    (Array.replicate c.n 0) c.order
+
+/-- position `t` is dropped: it is listed and is not among the `usub` entries stored on exit -/
+def dropUFn (d0 : Rat) (milu : Milu) (callU : IluSt Rat → Nat → Vec Rat → List Rat → Option UCall) :
+    IluSt Rat → Nat → Vec Rat → List Rat → Nat → Bool :=
+  fun st j w us t =>
+    match callU st j w us with
+    | none => false
+    | some c =>
+      decide (t ∈ c.order) &&
+        !(((ucore d0 milu c us).2.1.a.toList.take (ucore d0 milu c us).2.1.cnt).map (·.1)).contains (t : Int)
+
+/-- BOTH rules as modelled: U entries by `Slu.IluDropU` (both rules of `ilu_?copy_to_ucol`), L rows and the diagonal
+compensation by `Slu.IluDrop` (`dropRowOracle`) -/
+def dropBothOracle (nrm2 : Array Rat → Rat) (d0 : Rat) (milu : Milu) (callL : IluSt Rat → Nat → Option DropCall)
+    (callU : IluSt Rat → Nat → Vec Rat → List Rat → Option UCall) : DropOracle Rat :=
+  { dropU := dropUFn d0 milu callU
+    dropL := (dropRowOracle nrm2 milu callL).dropL
+    diagMul := (dropRowOracle nrm2 milu callL).diagMul }
+
+/-- **C15 (the whole-factorization identity with BOTH modelled dropping rules).** `iluFactor_identity_with_error`
+instantiated with `dropBothOracle`: whatever segments, quotas, tolerances and supernodes the caller passes (`callU`,
+`callL`), with the U entries chosen by the model of `ilu_?copy_to_ucol` (threshold test, `qselect` / interpolation, the
+second sweep) AND the L rows chosen by the model of `ilu_?drop_row` with its diagonal compensation,
+`L̃·Ũ = Pr·A·Pc + E` entrywise. -/
+theorem iluFactor_identity_dropU (F : Flavour Rat Rat) (P : IluParams Rat Rat) (nrm2 : Array Rat → Rat) (d0 : Rat)
+    (callL : IluSt Rat → Nat → Option DropCall) (callU : IluSt Rat → Nat → Vec Rat → List Rat → Option UCall)
+    (hcol : ∀ j, (P.col j).size = P.m) (b : Bool)
+    (h : (iluFactor F P (dropBothOracle nrm2 d0 P.milu callL callU) b).fail = 0) (j : Nat) (hj : j < P.n) (i : Nat) (hi : i < P.m) :
+    ((List.range (j + 1)).map fun k =>
+        ((iluFactor F P (dropBothOracle nrm2 d0 P.milu callL callU) b).U.getD j #[]).getD k 0 *
+          ((iluFactor F P (dropBothOracle nrm2 d0 P.milu callL callU) b).L.getD k #[]).get i).sum =
+      (P.col j).get i + ((iluFactor F P (dropBothOracle nrm2 d0 P.milu callL callU) b).E.getD j #[]).get i :=
+  iluFactor_identity_with_error magLaws_rat F P (dropBothOracle nrm2 d0 P.milu callL callU) hcol b h j hj i hi
+
+theorem idPerm_get (n t : Nat) (h : t < n) : ((Array.range n).map Int.ofNat)[t]! = (t : Int) := by
+  rw [getElem!_pos _ t (by simpa using h)]; simp
+
+/-- **C15 (what the U side of `dropBothOracle` drops).** For a call whose segment order lists distinct positions of `us`:
+a listed position that the oracle DROPS either failed the first test `quota > 0 && |u| >= drop_tol` (effective arguments
+of l.91-93) or the second rule ran with a threshold `tol` and `|u| <= tol`; a listed position it KEEPS passed the first
+test (`dropU_threshold` / `dropU_kept_subset` applied to the multipliers of the column). -/
+theorem dropUOracle_entries (d0 : Rat) (milu : Milu) (c : UCall) (us : List Rat)
+    (hnd : c.order.Nodup) (hlt : ∀ t ∈ c.order, t < us.length) (t : Nat) (ht : t ∈ c.order) :
+    ((((ucore d0 milu c us).2.1.a.toList.take (ucore d0 milu c us).2.1.cnt).map (·.1)).contains (t : Int) = false →
+      keepC (uopsRat (fun _ => 0) d0) (effTol (uopsRat (fun _ => 0) d0) c.rule c.dropTol) (effQuota c.rule c.quota c.n)
+        (us.toArray[t]!) = false ∨
+      ∃ tol, (ucore d0 milu c us).2.2.1 = some tol ∧ |us.toArray[t]!| ≤ tol) ∧
+    ((((ucore d0 milu c us).2.1.a.toList.take (ucore d0 milu c us).2.1.cnt).map (·.1)).contains (t : Int) = true →
+      keepC (uopsRat (fun _ => 0) d0) (effTol (uopsRat (fun _ => 0) d0) c.rule c.dropTol) (effQuota c.rule c.quota c.n)
+        (us.toArray[t]!) = true) := by
+  have hinv := dropCore_inv (uopsRat (fun _ => 0) d0) milu ((Array.range us.length).map Int.ofNat)
+    c.rule c.dropTol c.quota c.n us.toArray (Array.replicate c.n 0) c.order
+  unfold ucore
+  dsimp only at hinv
+  generalize dropCore (uopsRat (fun _ => 0) d0) c.rule milu c.dropTol c.quota c.n ((Array.range us.length).map Int.ofNat)
+    us.toArray (Array.replicate c.n 0) c.order = core at hinv ⊢
+  obtain ⟨ks, hP, hk, hks, hds, hS2, hrm, -⟩ := hinv
+  rw [visits_nodup _ _ _ hnd] at hP
+  have hz : (uopsRat (fun _ => 0) d0).zeroK = 0 := rfl
+  constructor
+  · intro hnot
+    have hmem : (t, us.toArray[t]!) ∈ ks ++ core.1.dropped :=
+      hP.symm.subset (List.mem_map.mpr ⟨t, ht, rfl⟩)
+    rcases List.mem_append.mp hmem with h | h
+    · right
+      have h1 : ((t : Int), us.toArray[t]!) ∈ core.1.kept.toList := by
+        rw [hk]
+        refine List.mem_map.mpr ⟨(t, us.toArray[t]!), List.mem_reverse.mpr h, ?_⟩
+        simp only [idPerm_get _ _ (hlt t ht)]
+      rcases List.mem_append.mp (hS2.symm.subset h1) with h2 | h2
+      · exfalso
+        have : (t : Int) ∈ (core.2.1.a.toList.take core.2.1.cnt).map (·.1) :=
+          List.mem_map.mpr ⟨_, h2, rfl⟩
+        rw [← List.contains_iff_mem] at this
+        rw [this] at hnot; exact Bool.noConfusion hnot
+      · obtain ⟨tol, e1, e2⟩ := hrm _ h2
+        refine ⟨tol, e1, ?_⟩
+        have : rabs (us.toArray[t]!) ≤ tol := by simpa [uopsRat, opsRat] using e2
+        rwa [rabs_eq_abs] at this
+    · left; exact hds (t, us.toArray[t]!) h
+  · intro hin
+    rw [List.contains_iff_mem] at hin
+    obtain ⟨e, he, het⟩ := List.mem_map.mp hin
+    have h1 : e ∈ core.1.kept.toList := hS2.subset (List.mem_append_left _ he)
+    rw [hk] at h1
+    obtain ⟨x, hx, rfl⟩ := List.mem_map.mp h1
+    have hx' := List.mem_reverse.mp hx
+    have hxv : x ∈ c.order.map fun t => (t, us.toArray[t]!) := hP.subset (List.mem_append_left _ hx')
+    obtain ⟨t', ht', rfl⟩ := List.mem_map.mp hxv
+    simp only [idPerm_get _ _ (hlt t' ht')] at het
+    have : t' = t := by exact_mod_cast het
+    subst this
+    exact hks (t', us.toArray[t']!) hx'
+
+example := dropUOracle_entries 1000 .smilu1 { order := [1, 0, 2], rule := exRule, dropTol := 1/2, quota := 1, n := 3 } [3, 1/4, 1]
+  (by decide) (by decide) 0 (by decide)
+
+end Slu.Ilu
